@@ -2,6 +2,7 @@ package governance
 
 import (
 	"fmt"
+	"math/big"
 
 	"github.com/pkg/errors"
 
@@ -103,9 +104,9 @@ func (pvs *ProposalVoteStore) Delete(proposalID ProposalID) error {
 	return nil
 }
 
-//ResultSoFar check and see if a proposal has already passed or failed
-//Proposal passed if passPercent already achieved
-//Proposal never pass if received enough NEGATIVE votes
+// ResultSoFar check and see if a proposal has already passed or failed
+// Proposal passed if passPercent already achieved
+// Proposal never pass if received enough NEGATIVE votes
 func (pvs *ProposalVoteStore) ResultSoFar(proposalID ProposalID, passPercent int) (*VoteStatus, error) {
 	info := fmt.Sprintf("Vote IsPassed: proposalID= %v", proposalID)
 
@@ -127,26 +128,28 @@ func (pvs *ProposalVoteStore) ResultSoFar(proposalID ProposalID, passPercent int
 	// Excludes validators that give up voting in percent calculation
 	totalPower := allPower - eachPower[OPIN_GIVEUP]
 
-	// Calculate actual percentage
+	// Calculate actual percentage, in integers: float rounding misjudges a tally that sits exactly on the boundary
 	yesPower := eachPower[OPIN_POSITIVE]
 	noPower := eachPower[OPIN_NEGATIVE]
-	yesPercentage := 0.0
-	noPercentage := 0.0
-	passPercentage := float64(passPercent) / 100.0
-	if totalPower > 0 {
-		yesPercentage = float64(yesPower) / float64(totalPower)
-		noPercentage = float64(noPower) / float64(totalPower)
+	yesScaled := big.NewInt(0).Mul(big.NewInt(yesPower), big.NewInt(100))
+	notNoScaled := big.NewInt(0).Mul(big.NewInt(totalPower-noPower), big.NewInt(100))
+	passScaled := big.NewInt(0).Mul(big.NewInt(totalPower), big.NewInt(int64(passPercent)))
+	if totalPower <= 0 {
+		// nobody has an opinion yet: 0% yes, 0% no
+		yesScaled = big.NewInt(0)
+		notNoScaled = big.NewInt(100)
+		passScaled = big.NewInt(int64(passPercent))
 	}
 
 	// Proposal passed if received enough votes of YES
-	if yesPercentage >= passPercentage {
-		logger.Detailf("%v, passed, YES percentage= %v", info, yesPercentage)
+	if yesScaled.Cmp(passScaled) >= 0 {
+		logger.Detailf("%v, passed, YES power= %v of %v", info, yesPower, totalPower)
 		stat := NewVoteStatus(VOTE_RESULT_PASSED, yesPower, noPower, allPower)
 		return stat, nil
 	}
 	// Proposal failed if received enough votes of NO
-	if (1.0 - noPercentage) < passPercentage {
-		logger.Detailf("%v, failed, NO percentage= %v", info, noPercentage)
+	if notNoScaled.Cmp(passScaled) < 0 {
+		logger.Detailf("%v, failed, NO power= %v of %v", info, noPower, totalPower)
 		stat := NewVoteStatus(VOTE_RESULT_FAILED, yesPower, noPower, allPower)
 		return stat, nil
 	}
